@@ -675,6 +675,11 @@ def _call_sites(tree) -> tuple[str, str]:
         # names assigned in this branch (only statements before the call count) or before the branch
         idx = next(i for i, st in enumerate(stmts) if isinstance(st, ast.Expr) and st.value is call)
         env = _assignments(stmts[:idx])
+        # a name bound inside a compound statement of the branch (conditionally, in a loop ...) is not a definite value
+        for st in stmts[:idx]:
+            if not isinstance(st, (ast.Assign, ast.AnnAssign)):
+                for k, v in _assignments([st]).items():
+                    env[k] = env.get(k, []) + v
         outer = _assignments([st for st in ast.walk(fn) if isinstance(st, (ast.Assign, ast.AnnAssign))
                               and st.lineno < node_if.lineno])
         for k, v in outer.items():
